@@ -151,20 +151,22 @@ def _f09e_lines(case):
             return None            # cut inside the envelope: no body decoder runs
         hx = hx[2 * start:]
     hx = hx or '-'
-    return ('dec %s %s %s sync %s' % (cfg, ty, proto, hx), 'alloc %s %s %s %s %s' % (cfg, ty, proto, mode, hx), len(hx) // 2 if hx != '-' else 0)
+    return ('alloc %s %s %s sync %s' % (cfg, ty, proto, hx), 'alloc %s %s %s %s %s' % (cfg, ty, proto, mode, hx), len(hx) // 2 if hx != '-' else 0)
 
 
 def f09e_decide(chk, gb, cands):
     """F-09e decided ON THE INPUT.  cands: async cases whose decoder crashed / panicked / hung / requested memory out of proportion.
-    -> [bool]: True only if the models show the defect on these very bytes: the SYNC model (same path through the message; the sync
-    readers check every container count against the bytes that remain) stops with size_limit / negative_size, i.e. the decoder's path
-    reaches a container header announcing a count that is negative or larger than the remaining bytes could hold, AND the async
-    allocation model (GenAlloc, runner op `alloc`) requests more than 4 KiB + 512 bytes per input byte for it.  Every other async crash
-    is not the known finding.  Counted in coverage.known_finding_attribution_F09e (confirmed / refused / skipped)."""
+    -> [bool]: True only if the allocation models (GenAlloc, runner op `alloc`) show the defect on these very bytes: the ASYNC model,
+    which charges Vec / hash-table preallocation from the announced count exactly as the async templates do, requests more than
+    4 KiB + 512 bytes per input byte AND the SYNC model on the same bytes either stops at a container header with size_limit /
+    negative_size (the sync readers bound every count by the bytes that remain: the count on the common path is oversized) or requests
+    at most an eighth of it (where the async readers, which validate less, walk on to a later oversized count; without one the two
+    models differ by the frame constants only, a factor of at most 4).  Every other async crash -- truncations included -- is
+    not the known finding.  Counted in coverage.known_finding_attribution_F09e (confirmed / refused / skipped)."""
     stats = chk.cov.setdefault('known_finding_attribution_F09e', dict(
-        rule='an async crash / panic / hang / memory excess counts as F-09e only if, on that input, the sync model stops at a container '
-             'header with size_limit / negative_size (count negative or above what the remaining bytes could hold) and the async allocation '
-             'model requests more than 4096 + 512 * |input| bytes; truncations without an oversized count are never excused',
+        rule='an async crash / panic / hang / memory excess counts as F-09e only if, on that input, the async allocation model requests more '
+             'than 4096 + 512 * |input| bytes and the sync model (counts bounded by the remaining bytes) either refuses a container count '
+             '(size_limit / negative_size) or requests at most an eighth of that for the same bytes; truncations without an oversized count are never excused',
         confirmed=0, refused=0, skipped=0, refused_examples=[], skipped_examples=[]))
     runner = FAM.runner if os.path.exists(FAM.runner) else None
     todo, keys = [], []
@@ -178,10 +180,11 @@ def f09e_decide(chk, gb, cands):
         import re
         for k, t in enumerate(todo):
             so, ao = outs[2 * k] or '', outs[2 * k + 1] or ''
-            m = re.search(r' ALLOC (-?\d+)', ao)
-            F09E_CACHE[t[1]] = (so.startswith('err size_limit') or so.startswith('err negative_size')) and m is not None \
-                and int(m.group(1)) > 4096 + 512 * t[2]
-            F09E_CACHE[t[1] + '#why'] = 'sync model: %s; async allocation model: %s' % (so[:40], ao[:60])
+            ms, m = re.search(r' ALLOC (-?\d+)', so), re.search(r' ALLOC (-?\d+)', ao)
+            oversized = so.startswith('err size_limit') or so.startswith('err negative_size')     # the sync reader refused a count
+            F09E_CACHE[t[1]] = ms is not None and m is not None and int(m.group(1)) > 4096 + 512 * t[2] \
+                and (oversized or int(m.group(1)) >= 8 * max(int(ms.group(1)), 1))
+            F09E_CACHE[t[1] + '#why'] = 'sync allocation model: %s; async allocation model: %s' % (so[:50], ao[:60])
     res = []
     for c, k in zip(cands, keys):
         if k is None or k not in F09E_CACHE:
@@ -203,6 +206,8 @@ def f09e_decide(chk, gb, cands):
 
 def _model_line(line):
     """the runner line that answers a driver line: `mem` (outcome + allocator figures) is answered by `dec`"""
+    if line.startswith('msg '):
+        return 'ownmsg ' + ' '.join(line.split(' ')[1:6])      # message level: Own.own_message (outcome, stage, leak)
     return 'dec' + line[3:] if line.startswith('mem ') else line
 
 
@@ -212,6 +217,13 @@ def _agrees(gb, case, impl_line, model_line, own_line=None, chk=None):
     undropped value are a difference"""
     import re
     from . import gencorr
+    if case['line'].startswith('msg '):
+        m = re.match(r'^(ok|err|panic|hang) STAGE ', impl_line or '')
+        ik = m.group(1) if m else 'crash'
+        mk = (model_line or '').split(' ')[0]
+        if ik == mk or (case.get('proto') == 'unchecked' and ik == 'crash' and mk in ('err', 'panic')):
+            return None
+        return 'outcome: implementation %s, model %s' % ((impl_line or '')[:40], (model_line or '')[:40])
     if case['line'].startswith('mem '):
         m = re.match(r'^(ok|err|panic|hang) LIVE (-?\d+) PEAK (\d+) REFS (\d+)', impl_line or '')
         ik = m.group(1) if m else 'crash'
@@ -263,7 +275,7 @@ def confirm_known(chk, gb, runner, failing, cases, outs, model_by_line):
     need = []
     for c, _cls in todo:
         for cc in group(c):
-            if cc['line'] not in model_by_line and cc['line'] not in need and cc['line'].split(' ')[0] in ('dec', 'renc', 'mem', 'dflt'):
+            if cc['line'] not in model_by_line and cc['line'] not in need and cc['line'].split(' ')[0] in ('dec', 'renc', 'mem', 'dflt', 'msg'):
                 need.append(cc['line'])
     own_by_line = {}
     if need:
@@ -293,8 +305,8 @@ def confirm_known(chk, gb, runner, failing, cases, outs, model_by_line):
             else:
                 stats['refused'] += 1
                 res.append((dict(c, not_the_known_finding=dict(cls=cls, finding='F-09e', models=F09E_CACHE.get((_f09e_lines(c) or ('', ''))[1] + '#why'))),
-                            '%s [on an async case of a type with containers, but NOT F-09e: no container header on the decoder\'s path announces a '
-                            'count beyond what the remaining bytes could hold (%s)]' % (why, F09E_CACHE.get((_f09e_lines(c) or ('', ''))[1] + '#why')), None, o))
+                            '%s [on an async case of a type with containers, but NOT F-09e: the async allocation model does not request an oversized '
+                            'preallocation for these bytes (%s)]' % (why, F09E_CACHE.get((_f09e_lines(c) or ('', ''))[1] + '#why')), None, o))
             continue
         diff, answered = None, 0
         for cc in group(c):
